@@ -1763,8 +1763,10 @@ HTTP/1.1 200 Ok\r\n\r\n";
 		rpl = rpl403, rpz = strlenof(rpl403);
 		goto hdr;
 	}
-	/* massage user */
-	u = u ?: cmd->uid;
+	/* massage user, root may ask for somebody else's view */
+	if (!u && cmd->uid != NOT_A_UID) {
+		u = cmd->uid;
+	}
 
 	switch (cmd->rou) {
 		char fn[PATH_MAX];
